@@ -376,6 +376,15 @@ theorem ieee_rounding_is_nearest_even (x : ℚ) (r : ℚ) (n : ℤ) (a : Nat) (h
   ⟨rneQ_half_ulp x, rneInt_half r, rneInt_tie_even r, rneInt_intCast n, repr64_of_finBits a ha⟩
 
 open JanetModel.Int64.Ieee in
+/-- ★ the specification `rneQ` is IEEE-754 roundTiesToEven: `rneQ x` is a closest value of the format to `x` — no finite double,
+    indeed no `± m · 2^e` with m < 2^53, e ≥ -1074 (exponent unbounded above), is closer (ties: the even significand,
+    `ieee_rounding_is_nearest_even`) -/
+theorem ieee_rounding_nearest_among_doubles (x : ℚ) :
+    (∀ c, FinBits c → |rneQ x - x| ≤ |valQ c - x|) ∧
+    (∀ (n : Bool) (m : Nat) (e : ℤ), m < 9007199254740992 → -1074 ≤ e → |rneQ x - x| ≤ |sgnQ n * ((m : ℚ) * 2 ^ e) - x|) :=
+  ⟨fun c hc => rneQ_nearest_binary64 x c hc, fun n m e hm he => rneQ_nearest x n m e hm he⟩
+
+open JanetModel.Int64.Ieee in
 /-- ★ "operators on ordinary numbers equal IEEE-754 double arithmetic": `+ - * /` of the instance on two finite doubles
     (b ≠ 0 for `/`) give the correctly rounded exact result — a finite double whose value is `rneQ` of the exact rational
     when that is below 2^1024 in magnitude, otherwise the infinity with the sign of the exact result -/
